@@ -191,19 +191,19 @@ def run(pid, tier, spec):
     t0 = time.time()
     out_lines = []
     with C.Lock("build"):
-        bad = C.grep_forbidden("Properties/%s.v" % pid)
+        bad = [b for t in C.property_targets(pid) for b in C.grep_forbidden(t[:-1])]
         if bad:
             print("INTERNAL: forbidden vernacular in the Coq development:\n" + "\n".join(bad))
             return 2
         tr_ok, tr_log = C.run_translator()
-        coq_ok, coq_log = C.coq_make(["Properties/%s.vo" % pid])
+        coq_ok, coq_log = C.coq_make(C.property_targets(pid))
         ora_ok, ora_log = C.build_oracle()
         if not ora_ok:
             print("INTERNAL: oracle build failed\n" + ora_log[-3000:])
             return 2
         h_ok, h_log, l1 = C.build_harness("l1")
         if not coq_ok:
-            coq_ok, badfiles = C.coq_ok_for("Properties/%s.v" % pid)
+            coq_ok = all(C.coq_ok_for(t[:-1])[0] for t in C.property_targets(pid))
         pinfo = C.property_file_info(pid) if coq_ok else {"ok": False, "theorems": [], "examples": [], "closed": 0, "axioms": [], "log": coq_log[-3000:]}
     with C.Lock("run-" + pid):
 
